@@ -244,7 +244,7 @@ func (g *Gen) RTValue(t *Ty, gt *GT) *Val {
 func (g *Gen) RTCase(depth int) (proto byte, t *Ty, gt *GT, v *Val) {
 	proto = byte(1 + g.R.Intn(5))
 	t = g.Ty(depth)
-	if t.IsScalar() { // composite types are the point of this generator
+	for tries := 0; t.IsScalar() && tries < 50; tries++ { // composite types are the point of this generator
 		t = g.Ty(depth)
 	}
 	gt = g.RTType(t)
